@@ -116,7 +116,9 @@ def bits(carrier, dtype, spelling):
     blist = list(range(lo, hi + 1))
     # a bit list names a set of bits: its order does not matter (lists and definitions written MSB first are common)
     dlist = blist[::-1] if spelling.endswith("-desc") else blist
-    car = CARRIERS[carrier](dtype, lambda v: v.add_bit_definition("FIELD", dlist))
+    # a name may consist of digits only ("0".."7" for nibbles or ports): it is still a name
+    fname = {"name-digit": str((lo + 3) % 8)}.get(spelling, "FIELD")
+    car = CARRIERS[carrier](dtype, lambda v: v.add_bit_definition(fname, dlist))
     if spelling == "int":
         key = lo
     elif spelling in ("list", "list-desc"):
@@ -126,7 +128,7 @@ def bits(carrier, dtype, spelling):
     elif spelling == "slice1":
         key = slice(lo, hi + 1, 1)
     else:
-        key = "FIELD"
+        key = fname
     rb, raw = _fresh_raw(dtype)
     car.set_raw_bytes(sx.items(rb))
     tag = "C20/bits/%s/%s" % (carrier, spelling)
@@ -354,7 +356,7 @@ def phys_passthrough():
 # (factor, kind, R): |raw| < 2^R.  Division by a power of two is exact and cheap for the solver (full
 # 31-bit range); for other factors the float64 divider has to be bit-blasted and only small raw ranges
 # finish (measured: 0.1 at R=4 80 s, R=10 190 s, R=31 > 300 s).
-PHYS_Q = [(0.5, "float", 31), (2.0, "float", 31), (-0.25, "float", 31), (1, "int", 31), (2, "int", 31),
+PHYS_Q = [(1, "float", 31), (1.0, "float", 31), (0.5, "float", 31), (2.0, "float", 31), (-0.25, "float", 31), (1, "int", 31), (2, "int", 31),
           (-4, "int", 31), (-1, "int", 31), (1000.0, "float", 4), (3.0, "float", 4), (10, "int", 4), (-3, "int", 4)]
 PHYS_T = PHYS_Q + [(0.1, "float", 10), (0.001, "float", 4), (3, "int", 10), (1000, "int", 6), (0.3, "float", 4),
                    (1000.0, "float", 16), (-3.0, "float", 4), (7, "int", 6), (0.125, "float", 31),
@@ -365,8 +367,8 @@ def jobs(tier):
     out = []
     for carrier in ("sdo", "pdo"):
         for dtype in (U8, U16, U32, I32) + ((U64, I16) if tier == "thorough" else ()):
-            for sp in ("int", "list", "slice", "slice1", "name", "list-desc", "name-desc"):
-                if sp.endswith("-desc") and dtype not in (U8, U32):
+            for sp in ("int", "list", "slice", "slice1", "name", "list-desc", "name-desc", "name-digit"):
+                if (sp.endswith("-desc") or sp == "name-digit") and dtype not in (U8, U32):
                     continue
                 out.append(dict(func="bits", params=dict(carrier=carrier, dtype=dtype, spelling=sp),
                                 weight=WIDTH[dtype]))
